@@ -6,7 +6,7 @@ import MidnightZK.Gen.C18Serde
 /-! Line-protocol handler of property C18.
 
 Request: `run <instr>... | <name>=<value>... | <hash-table>...`
-Answer:  `load:.. | trace:.. | off:.. | cmp:.. | pi:.. | mock:.. | bin:.. | json:..`
+Answer:  `load:.. | trace:.. | off:.. | cmp:.. | shp:.. | pi:.. | mock:.. | bin:.. | json:..`
 (the same sections the harness `h-c18` prints for the real implementation).
 
 Request: `dec <size_of Instruction> <size_of String> <hex bytes>` (`read_relation` on bytes)
@@ -197,6 +197,11 @@ def traceOff (H : Hashes) (w : Witness) : Nat → OffState → Program → List 
 
 def stripPublish (p : Program) : Program := p.filter (fun i => i.op ≠ .publish)
 
+/-- The program with `Publish <outputs>` inserted after every instruction that has outputs: its
+witness-free pass records the in-circuit type of every intermediate value (`shp:` section). -/
+def interleavePublish (p : Program) : Program :=
+  p.flatMap (fun i => if i.outs.isEmpty then [i] else [i, ⟨.publish, i.outs, []⟩])
+
 /-- Do the public inputs bound by the circuit match the instance column built from `given`
 (missing entries of the column are zero)? -/
 def piMatch : List Nat → List Nat → Bool
@@ -342,6 +347,10 @@ def answerRun (withMock : Bool) (r : Request) : String :=
     let cmpS := match cmp with
       | .ok ts => "ok:" ++ joinWith "," (ts.map fmtTy)
       | .error e => if e.isPanic then "panic" else "err:" ++ fmtErr e
+    -- in-circuit types of the outputs of every instruction (see `interleavePublish`)
+    let shpS := match compile H (interleavePublish r.prog) with
+      | .ok ts => "ok:" ++ joinWith "," (ts.map fmtTy)
+      | .error e => if e.isPanic then "panic" else "err:" ++ fmtErr e
     -- `public_inputs` skips the in-circuit pass when nothing is published
     let pi : Option (Except Err (List Nat)) := match offRes, cmp with
       | .ok st, .ok ts => some (encodePI st.pis ts)
@@ -359,7 +368,7 @@ def answerRun (withMock : Bool) (r : Request) : String :=
         | .error (k, _), _ => "np:" ++ mockVerdict H (stripPublish (r.prog.take (k + 1))) r.wit []
         | _, _ => "-"
     joinWith " | " ["load:ok", "trace:" ++ joinWith " " trace, "off:" ++ offS, "cmp:" ++ cmpS,
-      "pi:" ++ piS, "mock:" ++ mockS, "bin:" ++ hexBytes (encodeBin r.prog),
+      "shp:" ++ shpS, "pi:" ++ piS, "mock:" ++ mockS, "bin:" ++ hexBytes (encodeBin r.prog),
       "json:" ++ jsonText (toJson r.prog)]
 
 def answer (line : String) : String :=
